@@ -254,7 +254,9 @@ def assume(*conds):
             raise Infeasible('assume')
 
 
-def check(name, cond):
+def check(name, cond, props=None):
+    if props:
+        name = name + '@' + props.replace(' ', ',')
     _c().checks.append((name, bool(cond)))
 
 
@@ -371,6 +373,10 @@ def implies(p, q):
 
 def ite(c, x, y):
     return x if c else y
+
+
+def neg(x):
+    return not x
 
 
 def conj(*xs):
